@@ -243,6 +243,30 @@ func C01(run *mon.Run) {
 					map[string]any{"k": t.key.k.String(), "msg": mon.Hex(trunc(t.msg, 64)), "hasher": t.h.name})
 			}
 			pk := t.key.sk.PublicKey()
+			// arguments that share memory with other caller data: a message with spare capacity, and
+			// message and signature back to back in one buffer (both orders)
+			{
+				ms := withSpare(t.msg)
+				s2, e2 := t.key.sk.Sign(ms, h)
+				run.Eval(1)
+				if e2 != nil || !bytes.Equal(s2, encE) || !spareIntact(ms, t.msg) {
+					run.Violate("C01:sign-touches-caller-memory", fmt.Sprintf("Sign of a message slice with spare capacity: signature ok=%v, caller memory intact=%v (%s)", bytes.Equal(s2, encE), spareIntact(ms, t.msg), ctx), map[string]any{"msglen": len(t.msg), "hasher": t.h.name})
+				}
+				for order := 0; order < 2; order++ {
+					var ma, sa []byte
+					if order == 0 {
+						ma, sa = adjacent(t.msg, encE)
+					} else {
+						sa, ma = adjacent(encE, t.msg)
+					}
+					ok, e3 := pk.Verify(sa, ma, h)
+					run.Eval(1)
+					if e3 != nil || !ok || !bytes.Equal(ma, t.msg) || !bytes.Equal(sa, encE) {
+						run.Violate("C01:verify-adjacent-buffers", fmt.Sprintf("Verify with message and signature adjacent in one buffer (order %d): (%v,%v), buffers intact=%v (%s)", order, ok, e3, bytes.Equal(ma, t.msg) && bytes.Equal(sa, encE), ctx), map[string]any{"msglen": len(t.msg), "hasher": t.h.name})
+					}
+				}
+				run.Shape("caller-memory|" + t.h.name)
+			}
 			pk2, err := crypto.DecodePublicKey(BLS, pk.Encode())
 			if err != nil {
 				run.Violate("C01:pk-roundtrip", fmt.Sprintf("public key does not decode: %v", err), ctx)
